@@ -291,6 +291,13 @@ def observeOne (c : Ctx) (time : Int) (rows : List RawRow) (mapped : List (List 
     | some acc =>
       { c with concat := setAssoc o.name (concatGather i.toObserve acc time (mkCRows rows i.passes i.payloads)) c.concat }
 
+/-- the body of the loop over the observations of the phase (`inputs` holds the user callables' outputs) -/
+def stepObs (time : Int) (rows : List RawRow) (mapped : List (List (String × Option String)))
+    (inputs : List ObsInput) (c : Ctx) (o : Obs) : Ctx :=
+  match inputs.find? (fun i => i.name = o.name) with
+  | some i => observeOne c time rows mapped o i
+  | none => c
+
 /-- `ResultsManager.gather_results(lifecycle_phase, event)`: empty population ⇒ nothing; stratify (may
 fail); then every observation registered for the phase.  `inputs` must hold one entry per observation of
 the phase (the driver checks). -/
@@ -299,10 +306,7 @@ def gatherEvent (c : Ctx) (phase : String) (time : Int) (rows : List RawRow) (in
   if (rows.filter (·.inEvent)).isEmpty then .ok c
   else do
     let mapped ← stratifyAll c.strats rows
-    pure <| (c.obs.filter (fun o => o.phase = phase)).foldl (fun c o =>
-      match inputs.find? (fun i => i.name = o.name) with
-      | some i => observeOne c time rows mapped o i
-      | none => c) c
+    pure <| (c.obs.filter (fun o => o.phase = phase)).foldl (stepObs time rows mapped inputs) c
 
 /-- a whole simulation: events in order; the first error stops it -/
 def runSim (c : Ctx) : List (String × Int × List RawRow × List ObsInput) → Except Err Ctx
